@@ -278,3 +278,15 @@ def c_expand_or_standardize(self: Converter, curie_or_uri: str, strict: bool, pa
                     and result == owner(self, before(s, d)).uri_prefix + after(s, d)))
     ensures(implies(not hit and not ok and passthrough, result == s))
     ensures(implies(not hit and not ok and not passthrough, result is None))
+
+
+# ---- loop invariants (checked: established, preserved, used at exit) -------------------------
+@invariant("api.Converter.get_record", loop=0)
+def inv_get_record(self, prefix, _i, _xs):
+    return all(prefix not in P(r) for r in _xs[:_i])
+
+
+@invariant("api.Converter.expand_pair_all", loop=0)
+def inv_expand_pair_all(record, identifier, rv, _i, _xs):
+    return (len(rv) == 1 + _i and rv[0] == record.uri_prefix + identifier
+            and all(rv[1 + j] == _xs[j] + identifier for j in range(_i)))
